@@ -118,93 +118,212 @@ fn unsafe_reason(r: &Row) -> Option<&'static str> {
     None
 }
 
-fn toml_of(r: &Row) -> String {
-    let mut s = String::new();
-    s += &format!("[environment]\ntype = {:?}\n", r.env);
-    s += &format!("[server]\nhost = {:?}\nobservability_auth = {:?}\n", r.host, r.obs);
-    if r.variant == 1 {
-        s += "port = 6000\nmax_connections = 17\n";
-    }
-    s += &format!("[server.tls]\nenabled = {}\n", r.tls);
-    if r.tls {
-        s += "cert_path = \"/nonexistent/cert.pem\"\nkey_path = \"/nonexistent/key.pem\"\n";
-    }
-    s += &format!("[persistence]\nfsync_policy = {:?}\nsnapshot_interval_mutations = {}\nrecovery_mode = {:?}\nallow_fresh_start_on_recovery_failure = {}\n", r.fsync, r.snap, r.recovery, r.fresh);
-    if r.variant == 1 {
-        s += "max_wal_size_bytes = 4096\nwal_flush_interval_ms = 7\n";
-    }
-    s += &format!("[cache]\nstrategy = {:?}\n", r.strategy);
-    if r.variant == 1 {
-        s += "capacity = 123\nmin_training_samples = 5\nquery_cache_capacity = 9\n";
-    }
-    s += &format!("[auth]\nenabled = {}\n", r.auth);
-    if r.auth {
-        s += "api_keys_file = \"/nonexistent/keys.yaml\"\n";
-    }
-    s += &format!("[rate_limit]\nenabled = {}\n", r.rate);
-    if r.variant == 1 {
-        s += "[hnsw]\ndimension = 16\nm = 8\nef_construction = 64\n";
-    }
-    s
-}
+/// One setting: dotted path + value.
+type Setting = (&'static str, Value);
 
-fn yaml_of(r: &Row) -> String {
-    let mut s = String::new();
-    s += &format!("environment:\n  type: {:?}\n", r.env);
-    s += &format!("server:\n  host: {:?}\n  observability_auth: {:?}\n", r.host, r.obs);
-    if r.variant == 1 {
-        s += "  port: 6000\n  max_connections: 17\n";
-    }
-    s += &format!("  tls:\n    enabled: {}\n", r.tls);
-    if r.tls {
-        s += "    cert_path: \"/nonexistent/cert.pem\"\n    key_path: \"/nonexistent/key.pem\"\n";
-    }
-    s += &format!("persistence:\n  fsync_policy: {:?}\n  snapshot_interval_mutations: {}\n  recovery_mode: {:?}\n  allow_fresh_start_on_recovery_failure: {}\n", r.fsync, r.snap, r.recovery, r.fresh);
-    if r.variant == 1 {
-        s += "  max_wal_size_bytes: 4096\n  wal_flush_interval_ms: 7\n";
-    }
-    s += &format!("cache:\n  strategy: {:?}\n", r.strategy);
-    if r.variant == 1 {
-        s += "  capacity: 123\n  min_training_samples: 5\n  query_cache_capacity: 9\n";
-    }
-    s += &format!("auth:\n  enabled: {}\n", r.auth);
-    if r.auth {
-        s += "  api_keys_file: \"/nonexistent/keys.yaml\"\n";
-    }
-    s += &format!("rate_limit:\n  enabled: {}\n", r.rate);
-    if r.variant == 1 {
-        s += "hnsw:\n  dimension: 16\n  m: 8\n  ef_construction: 64\n";
-    }
-    s
-}
-
-fn env_of(r: &Row) -> Vec<(String, String)> {
-    let mut v = vec![
-        ("KYRODB__ENVIRONMENT__TYPE".to_string(), r.env.clone()),
-        ("KYRODB__SERVER__HOST".to_string(), r.host.to_string()),
-        ("KYRODB__SERVER__OBSERVABILITY_AUTH".to_string(), r.obs.to_string()),
-        ("KYRODB__SERVER__TLS__ENABLED".to_string(), r.tls.to_string()),
-        ("KYRODB__PERSISTENCE__FSYNC_POLICY".to_string(), r.fsync.to_string()),
-        ("KYRODB__PERSISTENCE__SNAPSHOT_INTERVAL_MUTATIONS".to_string(), r.snap.to_string()),
-        ("KYRODB__PERSISTENCE__RECOVERY_MODE".to_string(), r.recovery.to_string()),
-        ("KYRODB__PERSISTENCE__ALLOW_FRESH_START_ON_RECOVERY_FAILURE".to_string(), r.fresh.to_string()),
-        ("KYRODB__CACHE__STRATEGY".to_string(), r.strategy.to_string()),
-        ("KYRODB__AUTH__ENABLED".to_string(), r.auth.to_string()),
-        ("KYRODB__RATE_LIMIT__ENABLED".to_string(), r.rate.to_string()),
+/// The safety-relevant settings of a row.
+fn base_settings(r: &Row) -> Vec<(String, Value)> {
+    let mut v: Vec<(String, Value)> = vec![
+        ("environment.type".into(), json!(r.env)),
+        ("server.host".into(), json!(r.host)),
+        ("server.observability_auth".into(), json!(r.obs)),
+        ("server.tls.enabled".into(), json!(r.tls)),
+        ("persistence.fsync_policy".into(), json!(r.fsync)),
+        ("persistence.snapshot_interval_mutations".into(), json!(r.snap)),
+        ("persistence.recovery_mode".into(), json!(r.recovery)),
+        ("persistence.allow_fresh_start_on_recovery_failure".into(), json!(r.fresh)),
+        ("cache.strategy".into(), json!(r.strategy)),
+        ("auth.enabled".into(), json!(r.auth)),
+        ("rate_limit.enabled".into(), json!(r.rate)),
     ];
     if r.tls {
-        v.push(("KYRODB__SERVER__TLS__CERT_PATH".into(), "/nonexistent/cert.pem".into()));
-        v.push(("KYRODB__SERVER__TLS__KEY_PATH".into(), "/nonexistent/key.pem".into()));
+        v.push(("server.tls.cert_path".into(), json!("/nonexistent/cert.pem")));
+        v.push(("server.tls.key_path".into(), json!("/nonexistent/key.pem")));
     }
     if r.auth {
-        v.push(("KYRODB__AUTH__API_KEYS_FILE".into(), "/nonexistent/keys.yaml".into()));
-    }
-    if r.variant == 1 {
-        v.push(("KYRODB__SERVER__PORT".into(), "6000".into()));
-        v.push(("KYRODB__CACHE__CAPACITY".into(), "123".into()));
-        v.push(("KYRODB__CACHE__MIN_TRAINING_SAMPLES".into(), "5".into()));
+        v.push(("auth.api_keys_file".into(), json!("/nonexistent/keys.yaml")));
     }
     v
+}
+
+/// "Remaining settings": every other field of the configuration with a valid non-default value
+/// (two for the ones that classify a host). Each entry is one deviation from the defaults.
+pub fn deviations() -> Vec<(&'static str, Vec<Setting>)> {
+    vec![
+        ("server.port", vec![("server.port", json!(6000))]),
+        ("server.http_port", vec![("server.http_port", json!(7001))]),
+        ("server.http_host=loopback", vec![("server.http_host", json!("127.0.0.1"))]),
+        ("server.http_host=localhost", vec![("server.http_host", json!("localhost"))]),
+        ("server.http_host=non-loopback", vec![("server.http_host", json!("0.0.0.0"))]),
+        ("server.max_connections", vec![("server.max_connections", json!(17))]),
+        ("server.connection_timeout_secs", vec![("server.connection_timeout_secs", json!(1))]),
+        ("server.shutdown_timeout_secs", vec![("server.shutdown_timeout_secs", json!(1))]),
+        ("server.tls.ca_cert_path", vec![("server.tls.ca_cert_path", json!("/nonexistent/ca.pem"))]),
+        ("server.tls.require_client_cert", vec![("server.tls.require_client_cert", json!(true)), ("server.tls.ca_cert_path", json!("/nonexistent/ca.pem"))]),
+        ("server.tls.cert+key-without-enabled", vec![("server.tls.cert_path", json!("/nonexistent/cert.pem")), ("server.tls.key_path", json!("/nonexistent/key.pem"))]),
+        ("cache.capacity", vec![("cache.capacity", json!(50000))]),
+        ("cache.training_interval_secs", vec![("cache.training_interval_secs", json!(5))]),
+        ("cache.enable_training_task", vec![("cache.enable_training_task", json!(false))]),
+        ("cache.logger_window_size", vec![("cache.logger_window_size", json!(10))]),
+        ("cache.predictor_capacity_multiplier", vec![("cache.predictor_capacity_multiplier", json!(2))]),
+        ("cache.query_cache_capacity", vec![("cache.query_cache_capacity", json!(9))]),
+        ("cache.query_cache_similarity_threshold", vec![("cache.query_cache_similarity_threshold", json!(0.75))]),
+        ("cache.search_access_log_top_n", vec![("cache.search_access_log_top_n", json!(3))]),
+        ("cache.hot_tier_max_age_secs", vec![("cache.hot_tier_max_age_secs", json!(30))]),
+        ("cache.training_window_secs", vec![("cache.training_window_secs", json!(10))]),
+        ("cache.recency_halflife_secs", vec![("cache.recency_halflife_secs", json!(10))]),
+        ("cache.min_training_samples", vec![("cache.min_training_samples", json!(5))]),
+        ("cache.admission_threshold", vec![("cache.admission_threshold", json!(0.5))]),
+        ("cache.adaptive_admission.enabled", vec![("cache.adaptive_admission.enabled", json!(false))]),
+        ("cache.adaptive_admission.enabled=true", vec![("cache.adaptive_admission.enabled", json!(true))]),
+        ("cache.adaptive_admission.target_utilization", vec![("cache.adaptive_admission.target_utilization", json!(0.5))]),
+        ("cache.adaptive_admission.control_interval_secs", vec![("cache.adaptive_admission.control_interval_secs", json!(3))]),
+        ("cache.adaptive_admission.max_bias", vec![("cache.adaptive_admission.max_bias", json!(0.25))]),
+        ("cache.semantic.high_confidence_threshold", vec![("cache.semantic.high_confidence_threshold", json!(0.75))]),
+        ("cache.semantic.low_confidence_threshold", vec![("cache.semantic.low_confidence_threshold", json!(0.125))]),
+        ("cache.semantic.semantic_similarity_threshold", vec![("cache.semantic.semantic_similarity_threshold", json!(0.5))]),
+        ("cache.semantic.max_cached_embeddings", vec![("cache.semantic.max_cached_embeddings", json!(5000))]),
+        ("cache.semantic.similarity_scan_limit", vec![("cache.semantic.similarity_scan_limit", json!(10))]),
+        ("hnsw.max_elements", vec![("hnsw.max_elements", json!(1000))]),
+        ("hnsw.m", vec![("hnsw.m", json!(8))]),
+        ("hnsw.ef_construction", vec![("hnsw.ef_construction", json!(64))]),
+        ("hnsw.ef_search", vec![("hnsw.ef_search", json!(10))]),
+        ("hnsw.dimension", vec![("hnsw.dimension", json!(16))]),
+        ("hnsw.distance=euclidean", vec![("hnsw.distance", json!("euclidean"))]),
+        ("hnsw.distance=innerproduct", vec![("hnsw.distance", json!("innerproduct"))]),
+        ("hnsw.disable_normalization_check", vec![("hnsw.disable_normalization_check", json!(true))]),
+        ("persistence.data_dir", vec![("persistence.data_dir", json!("/nonexistent/data"))]),
+        ("persistence.wal_flush_interval_ms", vec![("persistence.wal_flush_interval_ms", json!(7))]),
+        ("persistence.max_wal_size_bytes", vec![("persistence.max_wal_size_bytes", json!(4096))]),
+        ("persistence.enable_recovery", vec![("persistence.enable_recovery", json!(false))]),
+        ("slo.p99_latency_ms", vec![("slo.p99_latency_ms", json!(5.5))]),
+        ("slo.cache_hit_rate", vec![("slo.cache_hit_rate", json!(0.5))]),
+        ("slo.error_rate", vec![("slo.error_rate", json!(0.5))]),
+        ("slo.availability", vec![("slo.availability", json!(0.5))]),
+        ("slo.min_samples", vec![("slo.min_samples", json!(3))]),
+        ("rate_limit.max_qps_per_connection", vec![("rate_limit.max_qps_per_connection", json!(5))]),
+        ("rate_limit.max_qps_global", vec![("rate_limit.max_qps_global", json!(50))]),
+        ("rate_limit.burst_capacity", vec![("rate_limit.burst_capacity", json!(3))]),
+        ("logging.level", vec![("logging.level", json!("debug"))]),
+        ("logging.format", vec![("logging.format", json!("json"))]),
+        ("logging.file", vec![("logging.file", json!("/nonexistent/k.log"))]),
+        ("logging.rotation", vec![("logging.rotation", json!(false))]),
+        ("logging.max_file_size_bytes", vec![("logging.max_file_size_bytes", json!(4096))]),
+        ("logging.max_files", vec![("logging.max_files", json!(2))]),
+        ("auth.api_keys_file-without-enabled", vec![("auth.api_keys_file", json!("/nonexistent/keys.yaml"))]),
+        ("timeouts.cache_ms", vec![("timeouts.cache_ms", json!(5))]),
+        ("timeouts.hot_tier_ms", vec![("timeouts.hot_tier_ms", json!(5))]),
+        ("timeouts.cold_tier_ms", vec![("timeouts.cold_tier_ms", json!(5))]),
+        ("timeouts.max_concurrent_queries", vec![("timeouts.max_concurrent_queries", json!(3))]),
+    ]
+}
+
+/// The "several at once" variant (variant 1 of the full matrix).
+fn combo() -> Vec<Setting> {
+    vec![
+        ("server.port", json!(6000)),
+        ("server.max_connections", json!(17)),
+        ("persistence.max_wal_size_bytes", json!(4096)),
+        ("persistence.wal_flush_interval_ms", json!(7)),
+        ("cache.capacity", json!(123)),
+        ("cache.min_training_samples", json!(5)),
+        ("cache.query_cache_capacity", json!(9)),
+        ("hnsw.dimension", json!(16)),
+        ("hnsw.m", json!(8)),
+        ("hnsw.ef_construction", json!(64)),
+    ]
+}
+
+fn merged(r: &Row, dev: &[Setting]) -> Vec<(String, Value)> {
+    let mut v = base_settings(r);
+    if r.variant == 1 {
+        for (k, val) in combo() {
+            v.push((k.to_string(), val));
+        }
+    }
+    for (k, val) in dev {
+        if let Some(e) = v.iter_mut().find(|(kk, _)| kk == k) {
+            e.1 = val.clone();
+        } else {
+            v.push((k.to_string(), val.clone()));
+        }
+    }
+    v
+}
+
+fn nest(settings: &[(String, Value)]) -> Value {
+    let mut root = serde_json::Map::new();
+    for (path, val) in settings {
+        let parts: Vec<&str> = path.split('.').collect();
+        let mut cur = &mut root;
+        for p in &parts[..parts.len() - 1] {
+            cur = cur.entry(p.to_string()).or_insert_with(|| Value::Object(Default::default())).as_object_mut().unwrap();
+        }
+        cur.insert(parts[parts.len() - 1].to_string(), val.clone());
+    }
+    Value::Object(root)
+}
+
+fn scalar(v: &Value) -> String {
+    match v {
+        Value::String(s) => format!("{s:?}"),
+        Value::Number(n) if n.is_f64() => format!("{:?}", n.as_f64().unwrap()),
+        other => other.to_string(),
+    }
+}
+
+fn toml_emit(prefix: &str, obj: &serde_json::Map<String, Value>, out: &mut String) {
+    if !prefix.is_empty() {
+        out.push_str(&format!("[{prefix}]\n"));
+    }
+    for (k, v) in obj {
+        if !v.is_object() {
+            out.push_str(&format!("{k} = {}\n", scalar(v)));
+        }
+    }
+    for (k, v) in obj {
+        if let Some(o) = v.as_object() {
+            let p = if prefix.is_empty() { k.clone() } else { format!("{prefix}.{k}") };
+            toml_emit(&p, o, out);
+        }
+    }
+}
+
+fn yaml_emit(indent: usize, obj: &serde_json::Map<String, Value>, out: &mut String) {
+    for (k, v) in obj {
+        if let Some(o) = v.as_object() {
+            out.push_str(&format!("{}{k}:\n", " ".repeat(indent)));
+            yaml_emit(indent + 2, o, out);
+        } else {
+            out.push_str(&format!("{}{k}: {}\n", " ".repeat(indent), scalar(v)));
+        }
+    }
+}
+
+fn toml_of(r: &Row, dev: &[Setting]) -> String {
+    let mut s = String::new();
+    toml_emit("", nest(&merged(r, dev)).as_object().unwrap(), &mut s);
+    s
+}
+
+fn yaml_of(r: &Row, dev: &[Setting]) -> String {
+    let mut s = String::new();
+    yaml_emit(0, nest(&merged(r, dev)).as_object().unwrap(), &mut s);
+    s
+}
+
+fn env_of(r: &Row, dev: &[Setting]) -> Vec<(String, String)> {
+    merged(r, dev)
+        .into_iter()
+        .map(|(k, v)| {
+            let key = format!("KYRODB__{}", k.to_ascii_uppercase().replace('.', "__"));
+            let val = match v {
+                Value::String(s) => s,
+                other => other.to_string(),
+            };
+            (key, val)
+        })
+        .collect()
 }
 
 fn clear_env() {
@@ -214,25 +333,41 @@ fn clear_env() {
     }
 }
 
-/// Load + validate through one delivery route. Ok(true) accepted, Ok(false) rejected.
-fn deliver(r: &Row, route: &str, dir: &std::path::Path) -> bool {
+const TEMPLATES: [&str; 4] = ["config.pilot.toml", "config.pilot.yaml", "config.example.toml", "config.example.yaml"];
+
+fn repo_root() -> String {
+    std::env::var("VERIF_REPO").unwrap_or_else(|_| "/repo".to_string())
+}
+
+/// Load + validate through one delivery route. true = accepted, false = rejected.
+/// Routes: "toml" / "yaml" (everything in one file), "env" (everything as KYRODB__ overrides over
+/// the defaults), "tpl:<file>" (a configuration template shipped in the repository as the file,
+/// the row's settings as environment overrides on top — the documented deployment route).
+fn deliver(r: &Row, dev: &[Setting], route: &str, dir: &std::path::Path) -> bool {
     clear_env();
     let res = match route {
         "toml" => {
             let p = dir.join("c.toml");
-            std::fs::write(&p, toml_of(r)).unwrap();
+            std::fs::write(&p, toml_of(r, dev)).unwrap();
             KyroDbConfig::load(Some(p.to_str().unwrap()))
         }
         "yaml" => {
             let p = dir.join("c.yaml");
-            std::fs::write(&p, yaml_of(r)).unwrap();
+            std::fs::write(&p, yaml_of(r, dev)).unwrap();
             KyroDbConfig::load(Some(p.to_str().unwrap()))
         }
-        _ => {
-            for (k, v) in env_of(r) {
+        "env" => {
+            for (k, v) in env_of(r, dev) {
                 std::env::set_var(k, v);
             }
             KyroDbConfig::load(None)
+        }
+        tpl => {
+            let file = format!("{}/{}", repo_root(), tpl.strip_prefix("tpl:").expect("route"));
+            for (k, v) in env_of(r, dev) {
+                std::env::set_var(k, v);
+            }
+            KyroDbConfig::load(Some(&file))
         }
     };
     let ok = match res {
@@ -243,46 +378,148 @@ fn deliver(r: &Row, route: &str, dir: &std::path::Path) -> bool {
     ok
 }
 
+fn count_reasons(r: &Row) -> usize {
+    // number of independently violated conditions (for the one-step frontier)
+    let env = r.env.trim().to_ascii_lowercase();
+    if env == "benchmark" {
+        return 0;
+    }
+    if env != "production" && env != "pilot" {
+        return 1;
+    }
+    let mut n = 0;
+    n += (r.fsync == "none") as usize;
+    n += (r.snap == 0) as usize;
+    n += (r.recovery != "strict") as usize;
+    n += (r.strategy != "learned") as usize;
+    if env == "pilot" {
+        n += (!r.auth) as usize;
+        n += (!r.rate) as usize;
+        n += (r.obs == "disabled") as usize;
+        n += r.fresh as usize;
+        n += (!r.tls && !is_loopback(r.host)) as usize;
+    }
+    if env == "production" {
+        n += (!is_loopback(r.host) && !r.auth) as usize;
+    }
+    n
+}
+
+fn judge(r: &Row, devname: &str, dev: &[Setting], route: &str, acc: bool, viol: &mut SigBag) {
+    if acc {
+        if let Some(reason) = unsafe_reason(r) {
+            let via = if route.starts_with("tpl:") { "template+env" } else { route };
+            let with = if devname.is_empty() { String::new() } else { format!("|with={devname}") };
+            viol.push((format!("C18|accepted-unsafe|{reason}|via={via}{with}"), json!({"engine":"seqmc","check":"C18","row":r,"route":route,"reason":reason,"deviation":devname,"deviation_settings":dev.iter().map(|(k,v)| json!([k,v])).collect::<Vec<_>>() })));
+        }
+    }
+}
+
 pub fn worker(wi: usize, wn: usize, tier: &str) {
     let scratch = vcore::Scratch::new(&format!("c18w{wi}"));
     let all = rows(tier);
+    let devs = deviations();
     let mut evals = 0u64;
     let mut accepted = 0u64;
     let mut rejected = 0u64;
     let mut route_disagree = 0u64;
+    let mut dev_evals = 0u64;
+    let mut tpl_evals = 0u64;
     let mut viol = SigBag::default();
     let mut accepted_by_env: std::collections::BTreeMap<String, u64> = Default::default();
+    let mut dev_accepts: std::collections::BTreeMap<String, u64> = Default::default();
+    let mut frontier = 0u64;
     for (i, r) in all.iter().enumerate() {
         if i % wn != wi {
             continue;
         }
+        // 1. the full matrix through the three self-contained routes
         let mut outs = Vec::new();
         for route in ["toml", "yaml", "env"] {
-            let acc = deliver(r, route, &scratch.path);
+            let acc = deliver(r, &[], route, &scratch.path);
             evals += 1;
             outs.push(acc);
             if acc {
                 accepted += 1;
                 *accepted_by_env.entry(r.env.trim().to_ascii_lowercase()).or_insert(0) += 1;
-                if let Some(reason) = unsafe_reason(r) {
-                    viol.push((format!("C18|accepted-unsafe|{reason}|via={route}"), json!({"engine":"seqmc","check":"C18","row":r,"route":route,"reason":reason})));
-                }
             } else {
                 rejected += 1;
             }
+            judge(r, "", &[], route, acc, &mut viol);
         }
         if !(outs[0] == outs[1] && outs[1] == outs[2]) {
             route_disagree += 1;
             viol.push(("C18|delivery-routes-disagree".to_string(), json!({"engine":"seqmc","check":"C18","row":r,"accepted_toml_yaml_env":outs})));
         }
+        if r.variant != 0 {
+            continue;
+        }
+        // 2. shipped templates + environment overrides
+        for tpl in TEMPLATES {
+            let route = format!("tpl:{tpl}");
+            let acc = deliver(r, &[], &route, &scratch.path);
+            evals += 1;
+            tpl_evals += 1;
+            if acc {
+                accepted += 1;
+            } else {
+                rejected += 1;
+            }
+            judge(r, "", &[], &route, acc, &mut viol);
+        }
+        // 3. "whatever the remaining settings are": on the one-step frontier (rows that are safe
+        //    or violate exactly one condition) every single deviation of a remaining setting
+        if count_reasons(r) <= 1 && r.env.trim().to_ascii_lowercase() != "benchmark" {
+            frontier += 1;
+            for (name, dev) in &devs {
+                let mut o = Vec::new();
+                for route in ["toml", "yaml", "env"] {
+                    let acc = deliver(r, dev, route, &scratch.path);
+                    evals += 1;
+                    dev_evals += 1;
+                    o.push(acc);
+                    if acc {
+                        accepted += 1;
+                        *dev_accepts.entry(name.to_string()).or_insert(0) += 1;
+                    } else {
+                        rejected += 1;
+                    }
+                    judge(r, name, dev, route, acc, &mut viol);
+                }
+                if !(o[0] == o[1] && o[1] == o[2]) {
+                    route_disagree += 1;
+                    viol.push((format!("C18|delivery-routes-disagree|with={name}"), json!({"engine":"seqmc","check":"C18","row":r,"deviation":name,"accepted_toml_yaml_env":o})));
+                }
+            }
+        }
     }
-    vcore::par::worker_emit(&json!({"evals":evals,"accepted":accepted,"rejected":rejected,"route_disagree":route_disagree,"violations":viol.to_json(),"accepted_by_env":accepted_by_env}));
+    vcore::par::worker_emit(&json!({"evals":evals,"accepted":accepted,"rejected":rejected,"route_disagree":route_disagree,"violations":viol.to_json(),"accepted_by_env":accepted_by_env,
+        "dev_evals":dev_evals,"tpl_evals":tpl_evals,"frontier":frontier,"dev_accepts":dev_accepts}));
 }
 
 pub fn run(tier: &str, replay: Option<&str>) -> i32 {
     if let Some(p) = replay {
         let v: Value = serde_json::from_str(&std::fs::read_to_string(p).expect("read")).expect("json");
-        println!("replay: row {} — re-run `bin/check C18` to reproduce (rows are self-describing)", v["case"]["row"]);
+        let c = &v["case"];
+        let env = c["row"]["env"].as_str().unwrap_or("").to_string();
+        let all = rows("thorough");
+        let want = c["row"].clone();
+        let Some(r) = all.iter().find(|r| { let mut j = serde_json::to_value(r).unwrap(); j["variant"] = want["variant"].clone(); j == want }) else {
+            println!("replay: row not in the matrix: {want} (env {env})");
+            return 2;
+        };
+        let r = Row { variant: want["variant"].as_u64().unwrap_or(0) as u8, ..r.clone() };
+        let devname = c["deviation"].as_str().unwrap_or("");
+        let devs = deviations();
+        let dev: Vec<Setting> = devs.iter().find(|(n, _)| *n == devname).map(|(_, d)| d.clone()).unwrap_or_default();
+        let scratch = vcore::Scratch::new("c18replay");
+        let route = c["route"].as_str().unwrap_or("toml");
+        let acc = deliver(&r, &dev, route, &scratch.path);
+        println!("replay: row {want} deviation {devname:?} via {route}: accepted={acc}, unsafe reason {:?}", unsafe_reason(&r));
+        if acc && unsafe_reason(&r).is_some() {
+            println!("VIOLATION property=C18 replay={p}");
+            return 1;
+        }
         return 0;
     }
     if let Some((i, n)) = vcore::par::worker_id() {
@@ -294,12 +531,16 @@ pub fn run(tier: &str, replay: Option<&str>) -> i32 {
     let mut rep = Reporter::new("C18");
     let mut tot = std::collections::BTreeMap::new();
     let mut by_env: std::collections::BTreeMap<String, u64> = Default::default();
+    let mut dev_acc: std::collections::BTreeMap<String, u64> = Default::default();
     for r in &res {
-        for k in ["evals", "accepted", "rejected", "route_disagree"] {
+        for k in ["evals", "accepted", "rejected", "route_disagree", "dev_evals", "tpl_evals", "frontier"] {
             *tot.entry(k).or_insert(0u64) += r[k].as_u64().unwrap_or(0);
         }
         for (k, v) in r["accepted_by_env"].as_object().unwrap() {
             *by_env.entry(k.clone()).or_insert(0) += v.as_u64().unwrap();
+        }
+        for (k, v) in r["dev_accepts"].as_object().unwrap() {
+            *dev_acc.entry(k.clone()).or_insert(0) += v.as_u64().unwrap();
         }
         rep.report_bag(&r["violations"]);
     }
@@ -307,8 +548,18 @@ pub fn run(tier: &str, replay: Option<&str>) -> i32 {
     let distinct: BTreeSet<String> = all.iter().map(|r| format!("{r:?}")).collect();
     ev.set("evaluations", tot["evals"]);
     ev.set("distinct_nontrivial", tot["accepted"]);
-    ev.set("rule", "full cross product environment x fsync {none,data_only,full} x snapshot interval {0,5} x recovery {strict,best_effort} x strategy {lru,learned,abtest} x auth x rate limit x observability auth {disabled,metrics_and_slo,all} x fresh-start flag x TLS x bind host, plus a second 'remaining settings' variant on every 7th row; each row delivered three ways (TOML file, YAML file, KYRODB__ environment overrides over defaults) through KyroDbConfig::load + validate; oracle: accepted => independent safety predicate transcribed from the property; the three routes must agree; non-trivial = accepted evaluations");
-    ev.set("samples", json!([all[3], all[all.len() / 2], {"toml": toml_of(&all[all.len() / 3])}]));
+    ev.set("rule", "full cross product environment x fsync {none,data_only,full} x snapshot interval {0,5} x recovery {strict,best_effort} x strategy {lru,learned,abtest} x auth x rate limit x observability auth {disabled,metrics_and_slo,all} x fresh-start flag x TLS x bind host, plus a 'several remaining settings at once' variant on every 7th row; each row delivered three ways (TOML file, YAML file, KYRODB__ environment overrides over defaults) through KyroDbConfig::load + validate, and additionally as environment overrides on top of each configuration template shipped in the repository (config.pilot.{toml,yaml}, config.example.{toml,yaml}); on the one-step frontier (rows that are safe or violate exactly one condition) every single deviation of a remaining setting (all other configuration fields, incl. http_host loopback / non-loopback) x the three routes; oracle: accepted => independent safety predicate transcribed from the property; the three self-contained routes must agree; non-trivial = accepted evaluations");
+    ev.set("remaining_setting_deviations", deviations().len() as u64);
+    ev.set("frontier_rows", tot["frontier"]);
+    ev.set("deviation_evaluations", tot["dev_evals"]);
+    ev.set("template_evaluations", tot["tpl_evals"]);
+    let never: Vec<&str> = deviations().iter().map(|(n, _)| *n).filter(|n| dev_acc.get(*n).copied().unwrap_or(0) == 0).collect();
+    ev.set("deviations_never_accepted", json!(never));
+    if !never.is_empty() {
+        eprintln!("C18: machinery error: deviations never accepted on any safe row (invalid value in the catalogue?): {never:?}");
+        return 2;
+    }
+    ev.set("samples", json!([all[3], all[all.len() / 2], {"toml": toml_of(&all[all.len() / 3], &deviations()[2].1)}]));
     ev.set("exhaustive", true);
     ev.set("rows", distinct.len() as u64);
     ev.set("accepted", tot["accepted"]);
